@@ -200,13 +200,22 @@ def _hl5_region(case):
     return hl == 5 and (ov or 1 <= lp <= 2)
 
 
+def _ipmg_region(case):
+    """second deadlock family: <= 2 logical processors and an intra period that is a whole number of mini-GOPs
+    (the configuration the API header recommends); send_picture blocks for ever on the input pool after ~16 pictures,
+    content dependent (measured: hl 1..3 with intra period = minigop-1 always; hl 3 with 15 on some contents)."""
+    hl = int(case.get("cfg.hierarchical_levels", 4))
+    lp = int(case.get("cfg.logical_processors", 0))
+    ip = int(case.get("cfg.intra_period_length", -2))
+    return 1 <= lp <= 2 and ip >= 1 and hl >= 1 and (ip + 1) % (1 << hl) == 0
+
+
 def known_hang_region(case):
-    """Configurations already known to deadlock the encoder (open finding: with a 6-layer hierarchy the picture
-    pools are undersized when overlays are on or when <= 2 logical processors are used; measured by a sweep:
-    0 packets come out for >= 32 pictures).  Checks for which a hang is in scope still run them (short watchdog);
-    the others skip them because they cannot be judged there."""
+    """Configurations already known to deadlock the encoder (open findings).  Checks for which a hang is in scope
+    still run them (short watchdog); the others skip them because they cannot be judged there."""
     try:
-        return _hl5_region(case) and int(case.get("frames", 0)) >= 32
+        n = int(case.get("frames", 0))
+        return (_hl5_region(case) and n >= 32) or (_ipmg_region(case) and n >= 10)
     except ValueError:
         return False
 
@@ -215,6 +224,8 @@ def hang_sig(case):
     try:
         if _hl5_region(case):
             return "hl5+(overlays|lp<=2)"
+        if _ipmg_region(case):
+            return "lp<=2+intra-period-whole-minigops"
     except ValueError:
         pass
     return feature_sig(case) + "|hl%s+lp%s" % (case.get("cfg.hierarchical_levels", "d"), case.get("cfg.logical_processors", "d"))
